@@ -140,7 +140,7 @@ def _check(prog, rep):
             if b is not None:
                 blank = b
         emit = (sw is True and blank is False)
-        skip = (sw is False) or (sw is True and blank is True)
+        skip = (sw is False) or (blank is True)
         if not (emit or skip):
             r3.check(False, "branching", "", "", "a path of the output pass decides neither starts_with(line, margin) nor BLANK(line)", site=site)
             continue
